@@ -10,7 +10,7 @@ wt=/tmp/try-$id-repo; vt=/tmp/try-$id-verif
 trap 'git -C /repo worktree remove --force $wt >/dev/null 2>&1; rm -rf $vt $wt' EXIT
 git -C /repo worktree add -q --detach $wt HEAD || exit 2
 git -C $wt apply "$patch" || { echo "PATCH DOES NOT APPLY"; exit 2; }
-rsync -a --exclude .git --exclude replays --exclude seeded /verif/ $vt/
+rsync -a --exclude .git --exclude replays --exclude seeded ${VERIF_SRC:-/verif}/ $vt/
 cd $vt
 rc=0
 for p in "$@"; do
